@@ -31,7 +31,7 @@ ASSUMPTIONS = [
     "that filtered fraction records equal unfiltered ones is C10's subject; here the unfiltered run supplies the fractions",
 ]
 SETTINGS: Dict[str, Dict[str, Any]] = {
-    "quick": {"cases": 1500, "cli_cases": 48, "budget_s": 45, "minimums": {"corpus_runs": 100, "lines_checked": 6000, "nontrivial": 800, "new_year_offset_events": 200, "cli_runs": 5}},
+    "quick": {"cases": 1500, "cli_cases": 48, "budget_s": 45, "minimums": {"corpus_runs": 100, "inverted_cut_runs_judged_against_their_own_detail": 100, "lines_checked": 6000, "nontrivial": 800, "new_year_offset_events": 200, "cli_runs": 5}},
     "thorough": {"cases": 60000, "cli_cases": 150, "budget_s": 300, "minimums": {"corpus_runs": 100, "lines_checked": 250000, "nontrivial": 30000, "new_year_offset_events": 8000, "cli_runs": 100}},
 }
 PROFILES = [
@@ -74,6 +74,13 @@ def _observe(ctx: Any, ip: Any, hist: Dict[str, Any], sched: Dict[int, str], win
             ctx.tag("tag_unobservable", res.error[:80])
             continue
         up_to = [f for f in full if to_d is None or model.events[f.event].ts.date() <= to_d]
+        if to_d is not None and not clean_cut(hist, to_d):
+            # the cut falls between own dates whose order is the reverse of the instants' (which fractions such a cut keeps is
+            # KF1 of C10): the lines must still be the sums over the fractions this very run lists up to the to-date
+            if from_d is not None:
+                continue
+            up_to = trace_of(res.computed)
+            ctx.count("inverted_cut_runs_judged_against_their_own_detail")
         yearly = yearly_of(res.computed)
         violations = check_yearly(model, up_to, yearly, from_year=from_d.year if from_d else None)
         ctx.count("lines_checked", len(yearly))
@@ -120,6 +127,15 @@ def run_shard(ctx: Any) -> None:
             _observe(ctx, ip, hist, sched, _windows(rng, hist))
         else:
             ctx.count("generated_invalid")
+        if index % 5 == 0:
+            from datetime import timedelta
+
+            from rpv import families
+
+            hist, info = families.inverted_dates(rng, kinds=("OUT", "OUT", "OUT", "IN", "INTRA"), at_new_year=rng.random() < 0.7)
+            if info["inverted_kinds"] and is_valid(Model(hist)):
+                boundary = date.fromisoformat(info["boundary"])
+                _observe(ctx, ip, hist, {1970: rng.choice(METHODS)}, [[None, (boundary + timedelta(days=k)).isoformat()] for k in (0, 1, -1)])
         index += ctx.nshards
         done += 1
     ctx.count("inputs", done)
